@@ -165,3 +165,14 @@ Proof.
   vm_compute. split; [|split; reflexivity].
   repeat (constructor; [cbn; intuition discriminate|]). constructor.
 Qed.
+
+(* ---- the remote path (net/proto/connection.go): the priority travels in the low bits of the byte that also
+   carries the important-delivery flag; for every well-formed message of every frame kind, with or without
+   the flag, the receiver parses the priority the sender used *)
+Require Ergo.Proto.Model Ergo.Proto.Proofs.
+Theorem C03_remote_priority : forall m, Ergo.Proto.Model.wf m ->
+  exists m', Ergo.Proto.Model.parse (Ergo.Proto.Model.build m) = Some m' /\
+             Ergo.Proto.Model.m_prio m' = Ergo.Proto.Model.m_prio m /\
+             Ergo.Proto.Model.m_imp m' = Ergo.Proto.Model.m_imp m.
+Proof. exact Ergo.Proto.Proofs.remote_priority. Qed.
+Print Assumptions C03_remote_priority.
